@@ -17,7 +17,7 @@ REPO = os.environ.get("VERIF_REPO", "/repo")
 BUILD = os.path.join(VERIF, "build")
 ENGINE_SRC = os.path.join(VERIF, "engines", "syltfacts")
 ENGINE_BIN = os.path.join(BUILD, "syltfacts-target", "release", "syltfacts")
-CACHE = os.path.join(VERIF, ".cache")
+CACHE = os.environ.get("VERIF_CACHE") or os.path.join(VERIF, ".cache")
 
 WORKSPACE_CRATES = ["sylt", "sylt-bin", "sylt_common", "sylt_compiler", "sylt_parser", "sylt_tokenizer"]
 SRC_DIRS = ["sylt", "sylt-common", "sylt-compiler", "sylt-macro", "sylt-parser", "sylt-tokenizer", "std"]
